@@ -15,23 +15,24 @@ from vcheck import Check, parallel
 def run(tier):
     c = Check("C14", tier)
     c.build()
-    caps = [0, 1, 2, 3] if c.quick() else [0, 1, 2, 3, 4, 5]
+    caps = [0, 1, 2, 3] if c.quick() else [0, 1, 2, 3, 4, 5, 6, 7]
     vals = [1, 2] if c.quick() else [1, 2, 3]
+    valsof = lambda cap: vals if cap <= 6 else [1, 2]          # fitted to measured state counts (DESIGN.md 9)
 
     def one(cap):
         cfg = c.write_cfg("ring", "RingImpl_c%d" % cap,
-                          constants={"Cap": cap, "Vals": vals, "MaxArg": cap + 2},
+                          constants={"Cap": cap, "Vals": valsof(cap), "MaxArg": cap + 2},
                           invariants=["IndexOK", "Bounded", "ZeroOutside"],
                           properties=["Refines"], view="View", action_constraints=["Emit"])
         emit = c.path("emit", "ring-c%d.ndjson" % cap)
-        c.tlc("ring", "RingImpl", cfg, emit=emit, workers=4, label="RingImpl-cap%d" % cap)
+        c.tlc("ring", "RingImpl", cfg, emit=emit, workers=4, label="RingImpl-cap%d" % cap, timeout=3000)
         return emit
 
     emits = parallel([lambda cap=cap: one(cap) for cap in caps], max_workers=6)
     # the contract on its own (invariants of RingBuffer.tla), smallest and largest capacity
     for cap in (caps[0], caps[-1]):
         cfg = c.write_cfg("ring", "RingBuffer_c%d" % cap,
-                          constants={"Cap": cap, "Vals": vals, "MaxArg": cap + 2},
+                          constants={"Cap": cap, "Vals": valsof(cap), "MaxArg": cap + 2},
                           invariants=["Bounded"], view="View")
         c.tlc("ring", "RingBuffer", cfg, workers=4, label="RingBuffer-cap%d" % cap)
     for e in emits:
@@ -40,8 +41,8 @@ def run(tier):
     c.exhaustive = True
 
     # code -> spec
-    ntr = 60 if c.quick() else 600
-    steps = 150 if c.quick() else 300
+    ntr = 60 if c.quick() else 3000
+    steps = 150 if c.quick() else 400
     trace = c.path("trace", "ring.ndjson")
     c.run_vh(["drive", "ring", "-seed", c.seed, "-n", ntr, "-out", trace, "-x", "steps=%d" % steps])
     cfg = c.write_cfg("ring", "RingTrace", postcondition="Accepted")
@@ -58,7 +59,7 @@ def run(tier):
     if not c.quick():
         selftest(c, lines)
     return c.finish(rule="one behaviour per edge of the RingImpl state graph (shortest call sequence to the edge's source "
-                         "state + the edge's call), capacities %s, values %s, ReadN/Skip/At arguments -1..Cap+2, replayed on "
+                         "state + the edge's call), capacities %s, values %s (2 values at capacity 7), ReadN/Skip/At arguments -1..Cap+2, replayed on "
                          "RingBuffer[int] and RingBuffer[*int]; plus %d recorded random traces of %d calls on capacities up to 1000"
                          % (caps, vals, ntr, steps))
 
